@@ -73,4 +73,20 @@ PROPS = {
         "served directly; the header is parsed by the reference grammar; the handler deadline is compared with arrival time + value on the fake clock; "
         "distinct = distinct scheduler-log hash among runs with >= 2 candidates",
         16000, 1000000),
+    "C03": e2e(
+        "each run = one recorded valid exchange (seeded: protocol x codec x compression x kind x HTTP version x message sizes x success/error, "
+        "recorded from a fault-free E2E run of the real client and handler) re-delivered to the real receiver - response bytes through "
+        "HTTPClient.Do, request bytes into Handler.ServeHTTP - under every enumerated segmentation: all 2^(n-1) splits for bodies of n <= 9 "
+        "(thorough: 13) bytes, otherwise whole / 1 / 2 / 3 / 7-byte reads, a single split at every offset from -1 to +6 around every envelope "
+        "prefix and payload end, one-byte reads across each prefix, and 12 random splits; each x {EOF with the last data, EOF on a separate "
+        "read}; oracle: outcome == outcome in one piece == outcome of the originating run; evaluations = exchanges, distinct = distinct "
+        "(protocol, kind, request bytes, response bytes); the probe 'deliveries' counts the (exchange, segmentation, EOF mode) triples",
+        1200, 40000, level="fault_enumeration"),
+    "C04": e2e(
+        "each run = one recorded valid exchange (as C03) whose response body is cut at EVERY byte offset 0..len (bodies <= 300 bytes, thorough 2048; "
+        "larger ones: every offset -2..+6 around every envelope boundary plus 60 random) x {clean EOF, unexpected EOF, connection reset, RST CANCEL, "
+        "RST INTERNAL_ERROR} x {HTTP trailers delivered, dropped}, whose request body is cut at every offset x {EOF, unexpected EOF, reset} into "
+        "ServeHTTP, and whose k-th ResponseWriter.Write fails for every k (live E2E); the reference codec decides whether the terminator arrived "
+        "within the delivered prefix; evaluations = exchanges, distinct = distinct (protocol, kind, bodies); 'deliveries' counts the faulted deliveries",
+        800, 30000, level="fault_enumeration"),
 }
